@@ -46,7 +46,7 @@ theorem exec_spec {b : Nat} {rec : Rec} (hrec : HookOK b rec) (w : World) (fuel 
     unfold exec
     intro st _ hb _ _
     exact ⟨⟨hb, Nat.le_refl _, fun _ _ => rfl, fun _ h => h, fun _ h => Or.inl h, fun _ _ h => h,
-      fun h => ⟨h.rawB, h.edges⟩⟩, fun r hr => by simp at hr⟩
+      fun h => ⟨h.rawB, h.edges⟩, fun _ => rfl⟩, fun r hr => by simp at hr⟩
   | .ident v, N, _, hwf => by
     unfold exec
     have hv : ArgOld b v := hwf v (by simp [Prog.vals])
